@@ -67,6 +67,19 @@ def alternatives(t):
     return [t]
 
 
+def result_alternatives(t):
+    """alternatives() for a function RESULT: a list/set comprehension or generator
+    among the alternatives is materialised (listof / list), since the consumer of
+    a result looks at its elements, not at the pending comprehension."""
+    out = []
+    for a in alternatives(t):
+        if isinstance(a, tuple) and a and a[0] == "comp":
+            out += alternatives(a[1].interp.comp_value(a))
+        else:
+            out.append(a)
+    return out
+
+
 def contains(t, pred):
     if pred(t):
         return True
